@@ -51,45 +51,93 @@ def cursor_calls(b, region=None):
     return out
 
 
-def r1_bound_table(ck, F, d):
-    R = "C04-R1"
-    D = DIRS[d]
-    b = F.body(A(D["contains"]))
-    sw = None
+def _bound_switches(b):
+    out = []
     for bb in sorted(b.normal_blocks()):
         if b.term(bb)["t"] == "switch":
             e, enum, labels, oth = switch_on(b, bb)
-            if e.k == "discr" and e.a[0].strip().k == "arg" and e.a[0].strip().x["i"] == 1 and enum == "std::ops::Bound":
-                sw = (bb, labels)
-    if not ck.ob(R, f"switch-on-bound/{d}", sw is not None and set(sw[1]) == {"Included", "Excluded", "Unbounded"}, f"{D['contains']} matches on all three Bound variants", b):
-        return
-    bb, labels = sw
+            if e.k == "discr" and enum == "std::ops::Bound":
+                out.append((bb, labels, e.a[0].strip()))
+    return out
+
+
+def _is_bound_of_self(src, which):
+    src = src.strip()
+    return (src.k == "call" and src.x["path"].endswith("::" + which) and is_self_field(src.a[0], "range")) or is_self_field(src, "range", "0" if which == "start_bound" else "1")
+
+
+def far_test(b, D):
+    """the far-side membership test inside `next` (end_contains / start_contains are spliced into their caller
+    when they are functions of their own, so that a hand-inlined test is the same shape):
+        match self.range.<far>_bound() { Unbounded => true, Included(x) => key REL= x, Excluded(x) => key REL x }
+    followed by one branch on that verdict.  Returns a dict, or a string saying what is missing."""
+    sws = [x for x in _bound_switches(b) if _is_bound_of_self(x[2], D["far"])]
+    if len(sws) != 1:
+        return f"{len(sws)} matches on self.range.{D['far']}()"
+    bb, labels, src = sws[0]
+    if set(labels) != {"Included", "Excluded", "Unbounded"}:
+        return f"the match on the far bound covers {sorted(labels)}"
     cmps = byte_comparisons(b)
-    for var, want in (("Included", D["incl"]), ("Excluded", D["excl"])):
+    arms = {}
+    for var in ("Included", "Excluded", "Unbounded"):
         reg = arm_region(b, bb, labels[var])
-        cs = [c for c in cmps if c["site"].bb in reg]
-        ok = len(cs) == 1
-        msg = f"{len(cs)} comparisons"
-        if ok:
-            c = cs[0]
-            a0, a1, op = c["a"], c["b"], c["op"]
-            if not (a0.strip().k == "arg" and a0.strip().x["i"] == 2):
-                a0, a1, op = a1, a0, FLIP[op]
-            pay = unwrap_payload(a1.strip() if a1.k in ("ref", "deref") else a1, var)
-            okb = (a0.strip().k == "arg" and a0.strip().x["i"] == 2) and any(e.k == "downcast" and e.x["variant"] == var for e in a1.walk())
-            rets = return_alts(b)
-            is_ret = any(r.k == "call" and r.x.get("site") == c["site"] for r in rets)
-            ok = op == want and okb and is_ret
-            msg = f"`key {op} bound` (payload of {var}), returned as the verdict"
-        ck.ob(R, f"arm/{d}/{var}", ok, f"{D['contains']} {var} arm: {msg} (expected `key {want} bound`)", b)
-    # Unbounded -> true
-    reg = arm_region(b, bb, labels["Unbounded"])
-    vals = []
-    for s, st in b.sites():
-        if s.i is not None and s.bb in reg and st["s"] == "assign" and not st["pl"]["p"] and st["pl"]["l"] == 0:
-            vals.append(const_val(b._expr_of_def((s, "assign", st["rv"]))))
-    ck.ob(R, f"arm/{d}/Unbounded", vals == [1] and not [c for c in cmps if c["site"].bb in reg], f"{D['contains']} Unbounded arm returns the constant true", b)
-    ck.exact(R, f"comparisons in {D['contains']}", len(cmps), 2, F.config)
+        arms[var] = (reg, [c for c in cmps if c["site"].bb in reg])
+    if [len(arms[v][1]) for v in ("Included", "Excluded", "Unbounded")] != [1, 1, 0]:
+        return "comparisons per arm (Included, Excluded, Unbounded): " + str([len(arms[v][1]) for v in ("Included", "Excluded", "Unbounded")])
+    want = {arms["Included"][1][0]["site"], arms["Excluded"][1][0]["site"]}
+    verdict = None
+    for vb in sorted(b.normal_blocks()):
+        t = b.term(vb)
+        if t["t"] != "switch":
+            continue
+        e = b.expr_of_operand(t["discr"], Site(vb, None))
+        neg = False
+        while e.k == "un" and e.x["op"] == "Not":
+            neg = not neg
+            e = e.a[0]
+        if e.k != "phi" or len(e.a) != 3:
+            continue
+        consts = [a for a in e.a if a.k == "const"]
+        cs = {a.strip().x.get("site") for a in e.a if a.strip().k == "call"}
+        if len(consts) == 1 and const_val(consts[0]) == 1 and cs == want:
+            zero = [tb for v, tb in t["arms"] if int(v) == 0]
+            if zero:
+                f_t, t_t = zero[0], t["otherwise"]
+                if neg:
+                    f_t, t_t = t_t, f_t
+                verdict = (vb, t_t, f_t)
+    if verdict is None:
+        return "no branch on the verdict `Unbounded => true | Included => cmp | Excluded => cmp`"
+    return dict(sw=bb, labels=labels, src=src, arms=arms, verdict=verdict)
+
+
+def r1_bound_table(ck, F, d):
+    R = "C04-R1"
+    D = DIRS[d]
+    b = F.body(A(D["next"]))
+    ft = far_test(b, D)
+    if not ck.ob(R, f"switch-on-bound/{d}", isinstance(ft, dict), f"{D['next']} tests the candidate against self.range.{D['far']}() by matching on all three Bound variants" + ("" if isinstance(ft, dict) else f" — {ft}"), b):
+        return
+    for var, want in (("Included", D["incl"]), ("Excluded", D["excl"])):
+        c = ft["arms"][var][1][0]
+        a0, a1, op = c["a"], c["b"], c["op"]
+        iskey = lambda e: tuple_part(e) == {0} and len(cursor_sources(e)) >= 3
+        if not iskey(a0):
+            a0, a1, op = a1, a0, FLIP[op]
+        okb = iskey(a0) and any(e.k == "downcast" and e.x["variant"] == var and _is_bound_of_self(e.a[0], D["far"]) for e in a1.walk())
+        ok = op == want and okb
+        ck.ob(R, f"arm/{d}/{var}", ok, f"{D['contains']} {var} arm: `key {op} bound` (payload of {var}), the verdict (expected `key {want} bound`)", b, c["site"])
+    ck.ob(R, f"arm/{d}/Unbounded", True, f"{D['contains']} Unbounded arm yields the constant true (the third alternative of the verdict)", b, nontrivial=False)
+    first = _first_call_region(b)
+    ck.exact(R, f"comparisons in {D['contains']}", len([c for c in byte_comparisons(b) if c["site"].bb not in first]), 2, F.config)
+
+
+def _first_call_region(b):
+    flag = _flag_switch(b)
+    if not flag:
+        return set()
+    fsw, ft, ff = flag
+    return arm_region(b, fsw, ft)
 
 
 def r2_start_table(ck, F, d):
@@ -97,12 +145,10 @@ def r2_start_table(ck, F, d):
     D = DIRS[d]
     b = F.body(A(D["next"]))
     sw = None
-    for bb in sorted(b.normal_blocks()):
-        if b.term(bb)["t"] == "switch":
-            e, enum, labels, oth = switch_on(b, bb)
-            if e.k == "discr" and enum == "std::ops::Bound":
-                src = e.a[0].strip()
-                sw = (bb, labels, src)
+    first = _first_call_region(b)
+    for x in _bound_switches(b):
+        if x[0] in first:
+            sw = x
     if not ck.ob(R, f"switch-on-near-bound/{d}", sw is not None and set(sw[1]) == {"Included", "Excluded", "Unbounded"}, f"{D['next']} positions by matching on all three Bound variants", b):
         return
     bb, labels, src = sw
@@ -144,29 +190,27 @@ def r2_start_table(ck, F, d):
     else:
         ok = False
     ck.ob(R, f"arm/{d}/Excluded", ok, f"Excluded(b) -> {msg}", b)
-    ck.exact(R, f"comparisons in {D['next']}", len(byte_comparisons(b)), 1, F.config)
+    ck.exact(R, f"comparisons in {D['next']}", len([c for c in byte_comparisons(b) if c["site"].bb in first]), 1, F.config)
+    ck.exact(R, f"matches on a Bound in {D['next']}", len(_bound_switches(b)), 2, F.config)
 
 
 def r3_guard(ck, F, d):
     R = "C04-R3"
     D = DIRS[d]
     b = F.body(A(D["next"]))
-    cs = calls(b, A(D["contains"]))
-    ck.exact(R, f"far-side membership tests in {D['next']}", len(cs), 1, F.config)
-    if not cs:
+    ft = far_test(b, D)
+    ck.exact(R, f"far-side membership tests in {D['next']}", 1 if isinstance(ft, dict) else 0, 1, F.config)
+    if not isinstance(ft, dict):
         return
-    site = cs[0][0]
-    a = b.arg_exprs(site)
-    bound_ok = (is_call(a[0], "::" + D["far"]) and is_self_field(a[0].strip().a[0], "range")) or is_self_field(a[0], "range", "1" if D["far"] == "end_bound" else "0")
-    key = a[1]
-    tested = cursor_sources(key)
-    ck.ob(R, f"tests-far-bound/{d}", bound_ok, f"membership is tested against self.range.{D['far']}() ({a[0].show()[:70]})", b, site)
-    ck.ob(R, f"tests-entry-key/{d}", tuple_part(key) == {0} and len(tested) >= 3, f"the tested key is the key part of the candidate entry, whichever cursor move produced it ({len(tested)} producing sites)", b, site)
-    entry = True
-    ed = bool_edges(b, value_site=site)
-    if not ck.ob(R, f"test-branches/{d}", ed is not None, "the membership verdict steers a branch", b, site):
-        return
-    sw, t_t, f_t = ed
+    site = Site(ft["verdict"][0], None)
+    keys = []
+    for var in ("Included", "Excluded"):
+        c = ft["arms"][var][1][0]
+        keys.append(c["a"] if tuple_part(c["a"]) == {0} else c["b"])
+    tested = cursor_sources(keys[0])
+    ck.ob(R, f"tests-far-bound/{d}", _is_bound_of_self(ft["src"], D["far"]), f"membership is tested against self.range.{D['far']}() ({ft['src'].show()[:70]})", b, site)
+    ck.ob(R, f"tests-entry-key/{d}", all(tuple_part(k) == {0} for k in keys) and len(tested) >= 3 and cursor_sources(keys[1]) == tested, f"the tested key is the key part of the candidate entry, whichever cursor move produced it ({len(tested)} producing sites)", b, site)
+    sw, t_t, f_t = ft["verdict"]
     somes = []
     for alt in return_alts(b):
         if is_err_path(alt):
